@@ -79,6 +79,51 @@ def run(ctx):
     from .. import tagged as _tagged
     from ..gen import Gen as _Gen, Opts as _Opts, module_text as _module_text
     _tagged.run_c16(ctx, ctx.rng, ctx.n(60, 800), impl, ['ber', 'der'], _Gen, _Opts, _module_text)
+    # "a valid encoding" is not only the encoder's output: the other BER forms of a message (indefinite lengths, segmented strings, padded
+    # lengths), read by the same version and by an OLDER version of the type (unknown additions inside).  Whenever the receiver accepts the
+    # whole form, every strict prefix of it must be the decode error.
+    from .. import tlv
+    from ..extend import extend
+    rng = ctx.rng
+    for i in range(ctx.n(70, 900)):
+        g = _Gen(rng, _Opts(max_depth=2, allow_exotic=0.0, big_lengths=0.0))
+        t1 = g.type()
+        t2, nsteps = extend(g, t1, rng.randint(1, 3))
+        text1, text2 = _module_text([('A', t1)]), _module_text([('A', t2)])
+        c1, c2 = impl.compile_text(text1, 'ber'), impl.compile_text(text2, 'ber')
+        if c1[0] != 'ok' or c2[0] != 'ok':
+            continue
+        for _ in range(2):
+            v2 = g.value(t2)
+            r = impl.encode(c2[1], 'A', v2)
+            if r[0] != 'ok':
+                continue
+            try:
+                node, _e = tlv.parse(r[1])
+            except Exception:
+                continue
+            for forms in (tlv.Forms(indef=1.0), tlv.Forms(indef=0.6, seg=0.4, nest=0.2), tlv.Forms(pad=0.3, indef=0.4, seg=0.5, nest=0.2)):
+                try:
+                    alt = tlv.reser(t2, node, True, rng, forms)
+                except Exception:
+                    ctx.count('forms.reser-failed')
+                    continue
+                for who, rcv, rtext in (('same version', c2[1], text2), ('older version', c1[1], text1)):
+                    if who == 'older version' and nsteps == 0:
+                        continue
+                    full = impl.decode(rcv, 'A', alt)
+                    ctx.count('forms.%s.full.%s' % (who.split(' ')[0], 'value' if full[0] == 'ok' else full[1].split(':')[0]))
+                    if full[0] != 'ok':
+                        continue            # acceptance of every form is C04's / C07's business
+                    for k in cuts(rng, len(alt), ctx.tier == 'quick'):
+                        d = impl.decode(rcv, 'A', alt[:k])
+                        ctx.case(('forms', rtext, alt.hex(), k))
+                        if d[0] == 'ok' or d[1] != 'DecodeError':
+                            ctx.violation('ber: a strict prefix (%d of %d octets) of a valid BER form of a message (read by the %s of the type) %s'
+                                          % (k, len(alt), who, 'decodes to a value' if d[0] == 'ok' else 'raises %s' % d[1]),
+                                          {'codec': 'ber', 'module': rtext, 'sender_module': text2, 'value': repr(v2)[:400], 'encoded': alt.hex(), 'prefix_length': k,
+                                           'whole_decodes_to': repr(full[1])[:300], 'result': repr(d[1:])[:300]})
+                            break
 
 
 def replay(ctx, path):
